@@ -17,6 +17,7 @@ type Feature struct {
 	Kind       string   // "CDS" or "mature"
 	Parent     string
 	LocForm    int // GenBank rendering variant for reverse multi-segment features
+	NoID       bool // GFF3 rendering: the row carries no ID attribute (only Parent and Name)
 }
 
 // CodingPositions lists the 1-based coding positions in reading order,
@@ -295,7 +296,7 @@ func makeChildren(r *fw.Rng, parent Feature) []Feature {
 		}
 		if contiguous {
 			out = append(out, Feature{ID: fmt.Sprintf("%s-m%d", parent.ID, n), Name: fmt.Sprintf("mat%s%d", strings.TrimPrefix(parent.ID, "cds-"), n), Strand: parent.Strand,
-				Segs: [][2]int{{lo, hi}}, CodonStart: 1, Kind: "mature", Parent: parent.ID})
+				Segs: [][2]int{{lo, hi}}, CodonStart: 1, Kind: "mature", Parent: parent.ID, NoID: r.Chance(0.3)})
 			n++
 		}
 		c = c1
@@ -458,7 +459,9 @@ func RenderGFFSeq(r *fw.Rng, a Annotation, withFasta bool, fastaSeq string) stri
 		ph := gffPhases(f)
 		for i, s := range f.Segs {
 			attrs := "ID=" + f.ID
-			if f.Parent != "" {
+			if f.NoID && f.Parent != "" {
+				attrs = "Parent=" + f.Parent // ID is optional in GFF3 for features nothing refers to
+			} else if f.Parent != "" {
 				attrs += ";Parent=" + f.Parent
 			}
 			if f.Name != "" {
